@@ -68,6 +68,23 @@ def cmdline (w : World) : Option (Res (List Bytes)) :=
     | .data d => some (cmdlineOf w.zombie d)
     | .err e => (fileErr w e).map .error
 
+/-! ### what the kernel exposes after the process rewrote its title (proc(5); `get_mm_cmdline`) -/
+
+/-- the bytes of `/proc/<pid>/cmdline` given the memory of the argument area `[arg_start, arg_end)` and of
+    the environment area that follows it: the argument area as it is — unless its last byte is no longer
+    NUL (the process overwrote it: setproctitle), in which case the C string at `arg_start`, running on into
+    the environment area, with its terminating NUL when there is one -/
+def kernelCmdline (argArea envArea : Bytes) : Bytes :=
+  if argArea = [] ∨ argArea.getLast? = some 0 then argArea
+  else
+    let all := argArea ++ envArea
+    let s := all.takeWhile (· != 0)
+    if s.length < all.length then s ++ [0] else s
+
+/-- an `n`-byte area after the title `t` was written at its start and the rest padded with NUL bytes
+    (nginx, sshd, postgres, python-setproctitle on Linux) -/
+def titleArea (t : Bytes) (n : Nat) : Bytes := t ++ List.replicate (n - t.length) 0
+
 /-! ### environ -/
 
 /-- the kernel's layout of an environment -/
